@@ -106,6 +106,29 @@ class HarnessGen:
         w.close()
         w.close()
 
+    def h_c04r(self, w: W, t: str, L: int):
+        """re-encode clause: for every accepted input, encode(decode_full(b)) is the canonical reference
+        encoding ref_encode(ref_decode(b)) (b with reserved bits and padding cleared)"""
+        w(f'#[kani::proof]\n#[kani::unwind({max(self.unwind(L), self.unwind_v())})]')
+        w.open(f'fn c04r_{t}() {{')
+        w(f'let data: [u8; {L}] = kani::any();')
+        w('let n: usize = kani::any();')
+        w(f'kani::assume(n <= {L});')
+        w('let b: &[u8] = &data[..n];')
+        w(f'let rr = ref_decode_{t}(b);')
+        w('kani::assume(!rr.cap && rr.ok && rr.used == n);')
+        w(f'let v = match {t}::decode_full(b) {{ Ok(v) => v, Err(e) => {{ std::mem::forget(e); return; }} }};')
+        w(f'let mut ro = RBuf::<{self.rr.ocap}>::new();')
+        w(f'ref_encode_{t}(&rr.v, &mut ro);')
+        w(f'kani::assume(!ro.overflow && ro.len <= {self.rr.mcmp});')
+        w(f'let mut out = ArrBuf::<{self.rr.ocap}>::new();')
+        w('let r = v.encode(&mut out);')
+        w('assert!(r.is_ok(), "C04: encode fails on a decoded value");')
+        w('assert!(bytes_eq_m(&out.buf, out.len, &ro.buf, ro.len), "C04: re-encoding of a decoded value differs from the canonical reference encoding");')
+        w('kani::cover!(true, "accepting path");')
+        w('std::mem::forget(v); std::mem::forget(r);')
+        w.close()
+
     # ------------------------------------------------------------------ value-driven harnesses
     def _draw(self, w: W, t: str):
         w('let mut drawn = true;')
@@ -432,7 +455,7 @@ class HarnessGen:
             w('use super::*;')
             w('use crate::support::*;')
             w(self.rr.emit_decode_side())
-            if any(k in ('c02', 'c03', 'c05', 'c16', 'c17', 'c06v', 'c18d', 'c18e') for k, _, _ in harnesses) or self.force_encode_side:
+            if any(k in ('c02', 'c03', 'c05', 'c16', 'c17', 'c06v', 'c18d', 'c18e', 'c04r') for k, _, _ in harnesses) or self.force_encode_side:
                 w(self.rr.emit_encode_side())
             w.close()
         w('#[cfg(kani)]')
